@@ -22,5 +22,12 @@ def lastD (l : List Str) : Str := (l.getLast?).getD []
 def removeChar (c : Char) (s : Str) : Str := s.filter (· ≠ c)
 /-- `"".join(l)` -/
 def joinEmpty (l : List Str) : Str := l.flatten
+/-- `s[0] in t` (`IndexError` on the empty string is not modelled: false) -/
+def headIn (s t : Str) : Bool :=
+  match s with
+  | [] => false
+  | c :: _ => t.contains c
+/-- a generator that yields `r` and then behaves like `k`: `list(...)` is `r :: rest`, or the first error -/
+def ycons (r : Rec) (k : Except Err (List Rec)) : Except Err (List Rec) := k.map (r :: ·)
 
 end CogentModel.PyStr
